@@ -122,6 +122,33 @@ fn main() {
                 Some(t) => format!("schema {}", (reg[i.parse::<usize>().unwrap()].schema)(&t)),
                 None => "badval".into(),
             }),
+            ["wfails", i, spec, val] => Some(match parse(val) {
+                Some(t) => (sreg[i.parse::<usize>().unwrap()].wfails)(&t, spec),
+                None => "badval".into(),
+            }),
+            ["wfail", i, spec, val] => Some(match parse(val) {
+                Some(t) => (reg[i.parse::<usize>().unwrap()].wfail)(&t, spec),
+                None => "badval".into(),
+            }),
+            ["rchunk", i, pat, k, val] => {
+                let e = &reg[i.parse::<usize>().unwrap()];
+                Some(match (parse(val), e.rchunk) {
+                    (Some(t), Some(f)) => match (e.ser)(&t) {
+                        Ok((_, bytes)) => {
+                            let (fail_at, eof) = if *k == "-" {
+                                (None, false)
+                            } else if let Some(x) = k.strip_prefix("eof") {
+                                (x.parse().ok(), true)
+                            } else {
+                                (k.parse().ok(), false)
+                            };
+                            f(&bytes, pat, fail_at, eof)
+                        }
+                        Err(s) => format!("rchunk ser-{}", s),
+                    },
+                    _ => "badval".into(),
+                })
+            }
             ["cursor", a, ops] => Some(epsh::ops::cursor_op(a, ops)),
             ["xxh", h] => Some(format!("xxh {}", xxhash_rust::xxh3::xxh3_64(&unhex(h)))),
             [""] => None,
